@@ -32,6 +32,36 @@ class Ptr:
         return f"&{self.region}+{self.off}"
 
 
+class FuncAddr:
+    """address of an item of the same module (func_addr): only ever stored into vtables and called by models"""
+    __slots__ = ("name",)
+
+    def __init__(self, name):
+        self.name = name
+
+    def __repr__(self):
+        return f"&fn {self.name}"
+
+
+def is_marker(v):
+    return isinstance(v, (Ptr, FuncAddr))
+
+
+class Byte:
+    """byte i (little endian) of an n-byte value that was stored as a whole; keeps loads of whole values syntactically
+    equal to what was stored (no Extract/Concat round trip for the solver to undo)"""
+    __slots__ = ("term", "i", "n")
+
+    def __init__(self, term, i, n):
+        self.term, self.i, self.n = term, i, n
+
+
+def byte_term(e):
+    if isinstance(e, Byte):
+        return z3.simplify(z3.Extract(8 * e.i + 7, 8 * e.i, e.term)) if e.n > 1 else e.term
+    return e
+
+
 class Inst:
     __slots__ = ("res", "op", "ty", "args", "raw")
 
@@ -244,7 +274,7 @@ class Path:
         r = self.mem[ptr.region]
         if ptr.off < 0 or ptr.off + nbytes > len(r):
             raise Unsupported(f"load out of region bounds {ptr} size {nbytes} region {len(r)}")
-        bs = []
+        ents = []
         for i in range(nbytes):
             b = r[ptr.off + i]
             if b is None:
@@ -252,13 +282,29 @@ class Path:
                 self.undef_reads += 1
                 b = z3.BitVec(f"undef!{self.fresh}", 8)
                 r[ptr.off + i] = b
-            bs.append(b)
-        if isinstance(bs[0], Ptr):
-            # a stored pointer (8 bytes share the same Ptr object marker)
-            return bs[0]
-        if any(isinstance(b, Ptr) for b in bs):
+            ents.append(b)
+        if is_marker(ents[0]):
+            # a stored pointer / function address (8 bytes share the same marker object)
+            if nbytes != 8 or any(b is not ents[0] for b in ents):
+                raise Unsupported("partial pointer load")
+            return ents[0]
+        if any(is_marker(b) for b in ents):
             raise Unsupported("partial pointer load")
+        e0 = ents[0]
+        if isinstance(e0, Byte) and e0.i == 0 and e0.n == nbytes and all(isinstance(b, Byte) and b.term is e0.term and b.i == k for k, b in enumerate(ents)):
+            return e0.term
+        bs = [byte_term(b) for b in ents]
         return z3.simplify(z3.Concat(*reversed(bs))) if nbytes > 1 else bs[0]
+
+    def peek(self, ptr, nbytes):
+        """value at ptr if every byte has been written with data (no side effect), else None"""
+        r = self.mem.get(ptr.region)
+        if r is None or ptr.off < 0 or ptr.off + nbytes > len(r):
+            return None
+        ents = r[ptr.off:ptr.off + nbytes]
+        if any(b is None or is_marker(b) for b in ents):
+            return None
+        return self.load(ptr, nbytes)
 
     def store(self, ptr, val, nbytes):
         if not isinstance(ptr, Ptr):
@@ -266,14 +312,15 @@ class Path:
         r = self.mem[ptr.region]
         if ptr.off < 0 or ptr.off + nbytes > len(r):
             raise Unsupported(f"store out of region bounds {ptr} size {nbytes} region {len(r)}")
-        if isinstance(val, Ptr):
+        if is_marker(val):
             if nbytes != 8:
                 raise Unsupported("pointer stored with width != 8")
             for i in range(8):
                 r[ptr.off + i] = val
             return
+        val = z3.simplify(val)
         for i in range(nbytes):
-            r[ptr.off + i] = z3.simplify(z3.Extract(8 * i + 7, 8 * i, val))
+            r[ptr.off + i] = Byte(val, i, nbytes)
 
     def read_bytes(self, ptr, n):
         return [self.load(Ptr(ptr.region, ptr.off + i), 1) for i in range(n)]
@@ -343,8 +390,8 @@ class Path:
                     env[ins.res] = parse_hexfloat(rest, 32 if op == "f32const" else 64)
                 elif op in ("iadd", "isub", "imul", "sdiv", "udiv", "srem", "urem", "band", "bor", "bxor"):
                     a, b = [val(x) for x in _split_args(rest)]
-                    if isinstance(a, Ptr) or isinstance(b, Ptr):
-                        if op == "iadd" and isinstance(a, Ptr) and z3.is_bv_value(z3.simplify(b)):
+                    if is_marker(a) or is_marker(b):
+                        if op == "iadd" and isinstance(a, Ptr) and not is_marker(b) and z3.is_bv_value(z3.simplify(b)):
                             env[ins.res] = Ptr(a.region, a.off + z3.simplify(b).as_signed_long())
                             continue
                         raise Unsupported("pointer arithmetic")
@@ -427,20 +474,23 @@ class Path:
                         self.mem[key] = [z3.BitVecVal(b, 8) for b in self.w.data[idx]]
                     env[ins.res] = Ptr(key, 0)
                 elif op == "func_addr":
-                    raise Unsupported("func_addr (vtable construction)")
+                    kind, ns, idx, sig = f.fns[rest.strip()]
+                    if kind != "u" or idx not in self.w.func_ids:
+                        raise Unsupported("func_addr of an unknown function")
+                    env[ins.res] = FuncAddr(self.w.func_ids[idx])
                 elif op == "load":
                     flags_addr = rest.split()
                     p = addr(flags_addr[-1])
                     nb = TY_BITS[ty] // 8
                     v = self.load(p, nb)
-                    if ty in ("f32", "f64") and not isinstance(v, Ptr):
+                    if ty in ("f32", "f64") and not is_marker(v):
                         v = z3.fpBVToFP(v, z3.Float32() if ty == "f32" else z3.Float64())
                     env[ins.res] = v
                 elif op == "store":
                     parts = _split_args(rest)
                     v = val(parts[0].split()[-1])
                     p = addr(parts[1])
-                    if isinstance(v, Ptr):
+                    if is_marker(v):
                         self.store(p, v, 8)
                     elif z3.is_fp(v):
                         self.store(p, z3.fpToIEEEBV(v), (v.sort().ebits() + v.sort().sbits()) // 8)
